@@ -4,6 +4,7 @@ import LexgenModel.Proofs.NextProtocol
 import LexgenModel.Proofs.CheckerSound
 import LexgenModel.Proofs.CompileLang
 import LexgenModel.Proofs.EndToEnd
+import LexgenModel.Proofs.RefRefine
 /-!
 # C01 — Longest match with first-rule priority, recovered by backtracking
 
@@ -175,5 +176,25 @@ example : CtxNumbering exDef (fun _ => .chr 99) := by
   have : j = 0 := by simp only [List.length_cons, List.length_nil] at hj; omega
   subst this
   rfl
+
+/-- **Refinement to the reference lexer.** For every well-formed definition the model compiles, every call
+of the model of the generated `next()` (generated state code with inlining and state numbering, backtrack
+elision, saved matches, `lexgen_util::Lexer`) from a lexer state at a lexeme start is a step of the REFERENCE
+lexer of the definition, `RefNext` (Spec/RefLexer.lean), which is defined from the definition alone: regex
+and right-context denotations, maximal munch with first-rule priority (`Selects`, a function:
+`C01_selection_unique`), the semantic-action protocol, the end-of-input and error rules. Hence the sequence of
+(rule, lexeme) pairs produced equals the maximal-munch reference tokenisation. -/
+theorem C01_refines_reference (items : LexerDef) (c : Compiled) (h : compileLexer items = .ok c) (hok : DefOK items)
+    (ctxAt : Nat → Regex) (hnum : CtxNumbering items ctxAt)
+    (actions : Nat → Action σ τ ε) (width : Nat → Nat) (input : Option (List Nat))
+    (st : LState σ) (hr : Ready (c.config actions width input) st)
+    (r : Option (Item τ ε) × LState σ) (hn : next (c.config actions width input) st = some r) :
+    RefNext items c ctxAt (c.config actions width input) st r :=
+  next_refines_ref items c h hok ctxAt hnum actions width input st hr r hn
+
+/-- maximal munch with first-rule priority selects at most one (length, rule, via-`$`) triple -/
+theorem C01_selection_unique (rules : List CoreRule) (ctxAt : Nat → Regex) (iter : List Nat) (n a n' a' : Nat) (e e' : Bool)
+    (h : Selects rules ctxAt iter n a e) (h' : Selects rules ctxAt iter n' a' e') : n = n' ∧ a = a' ∧ e = e' :=
+  selects_unique rules ctxAt iter n a n' a' e e' h h'
 
 end Lexgen
